@@ -1,4 +1,7 @@
 import Pyunicorn.Lemmas.Geo
+import Pyunicorn.Lemmas.GeoError
+import Pyunicorn.Lemmas.GeoRound
+import Pyunicorn.Generated.StructC12
 /-!
 # C12 — Grid distances equal closed-form geometry and are metrics
 
@@ -139,6 +142,17 @@ theorem cosAngKernel_mem (sl cl sn cn : Nat → α) (N a b : Nat) :
   · rw [cosAngKernel_apply _ _ _ _ N a b h.1 h.2]; exact clamp_mem _
   · rw [cosAngKernel_outside _ _ _ _ N a b h]
     constructor <;> linarith [zero_lt_one (α := α)]
+
+/-- the two masked assignments of `GeoGrid.node_number` (`expr[expr < -1] = -1` first, then
+`expr[expr > 1] = 1` on the modified array) compute the same clamp as the kernel's
+`if … elif …` -/
+theorem clampMask_eq_clamp (e : α) : clampMask e = clamp e := by
+  unfold clampMask clamp
+  have h : (-1 : α) < 1 := by linarith [zero_lt_one (α := α)]
+  by_cases h1 : e < -1
+  · have h2 : ¬ (1 : α) < e := by intro h2; linarith
+    simp only [h1, if_true, h2, if_false, if_neg (not_lt.2 h.le)]
+  · simp only [h1, if_false]
 
 end Clamp
 
@@ -322,6 +336,68 @@ example : euclideanDistance realTrig (fun k i => if i = 0 then 0 else if k = 0 t
         (pt (fun k i => if i = 0 then (0 : ℝ) else if k = 0 then 3 else 4) 2 1) :=
   euclideanDistance_eq_dist _ 2 2 0 1 (by omega) (by omega)
 
+/-! ## the Euclidean accuracy clause under the standard model of floating point arithmetic
+
+`rEuclKernel rnd pw` (Lemmas/GeoRound) is the *same* model `euclKernel`, instantiated with
+operations that round their exact result: `a ⊕ b = rnd (a + b)`, `a ⊗ b = rnd (a * b)`,
+`a ⊖ b = rnd (a - b)`, and `pw` for `expr ** 0.5`.  `StdRound rnd u` is the standard model
+`|rnd v - v| ≤ u |v|` (IEEE round-to-nearest without overflow / underflow: `u = 2⁻²⁴` for
+float32).  Under it the accuracy of the stored distances is a theorem, for every
+dimension; what remains trusted is that the hardware / `powf` satisfy the model. -/
+
+/-- every entry of the rounded kernel lies within the factors `(1 ∓ w) √((1 ∓ u)^(d+3))`
+of the exact distance `‖x_a − x_b‖`, any dimension `d` -/
+theorem euclidean_entry_rounded {rnd : ℝ → ℝ} {u w : ℝ} (h : StdRound rnd u) (pw : ℝ → ℝ)
+    (hw0 : 0 ≤ w) (hw1 : w ≤ 1) (hpw : ∀ v, 0 ≤ v → |pw v - √v| ≤ w * √v)
+    (x : Nat → Nat → ℝ) (d N a b : Nat) (ha : a < N) (hb : b < N) :
+    (1 - w) * √((1 - u) ^ (d + 3)) * dist (pt x d a) (pt x d b) ≤ rEuclKernel rnd pw x d N a b ∧
+      rEuclKernel rnd pw x d N a b ≤ (1 + w) * √((1 + u) ^ (d + 3)) * dist (pt x d a) (pt x d b) := by
+  rw [rEuclKernel_apply rnd pw x d N a b ha hb]
+  have hd : dist (pt x d a) (pt x d b) = √(sumsq x d (max a b) (min a b)) := by
+    rw [sqrt_sumsq_eq_dist]
+    rcases Nat.le_total a b with h | h
+    · rw [Nat.max_eq_right h, Nat.min_eq_left h, dist_comm]
+    · rw [Nat.max_eq_left h, Nat.min_eq_right h]
+  rw [hd]
+  exact rdist_bounds h pw hw0 hw1 hpw x d _ _
+
+/-- **float32** (`u = 2⁻²⁴`, `powf` within one ulp: `w = 2⁻²³`), up to 6 dimensions: every
+stored distance has relative error at most `2⁻²⁰` — the bound of the property statement
+and of the oracle (`REL_EUC`) -/
+theorem euclidean_entry_accuracy_float32 {rnd : ℝ → ℝ} (h : StdRound rnd (2⁻¹ ^ 24)) (pw : ℝ → ℝ)
+    (hpw : ∀ v, 0 ≤ v → |pw v - √v| ≤ 2⁻¹ ^ 23 * √v)
+    (x : Nat → Nat → ℝ) (d N a b : Nat) (hd : d ≤ 6) (ha : a < N) (hb : b < N) :
+    |rEuclKernel rnd pw x d N a b - dist (pt x d a) (pt x d b)|
+      ≤ 2⁻¹ ^ 20 * dist (pt x d a) (pt x d b) := by
+  have hb' := euclidean_entry_rounded h pw (by norm_num) (by norm_num) hpw x d N a b ha hb
+  have hf := float32_factors d hd
+  have hD : 0 ≤ dist (pt x d a) (pt x d b) := dist_nonneg
+  rw [abs_le]
+  constructor
+  · have := mul_le_mul_of_nonneg_right hf.1 hD
+    linarith [hb'.1]
+  · have := mul_le_mul_of_nonneg_right hf.2 hD
+    linarith [hb'.2]
+
+/-- in particular the diagonal (and every pair of nodes with identical coordinates) is
+exactly zero also in rounded arithmetic -/
+theorem euclidean_rounded_self {rnd : ℝ → ℝ} (h : StdRound rnd (2⁻¹ ^ 24)) (pw : ℝ → ℝ)
+    (hpw : ∀ v, 0 ≤ v → |pw v - √v| ≤ 2⁻¹ ^ 23 * √v)
+    (x : Nat → Nat → ℝ) (d N a : Nat) (hd : d ≤ 6) (ha : a < N) :
+    rEuclKernel rnd pw x d N a a = 0 := by
+  have := euclidean_entry_accuracy_float32 h pw hpw x d N a a hd ha ha
+  rw [dist_self, mul_zero, sub_zero] at this
+  exact abs_eq_zero.1 (le_antisymm this (abs_nonneg _))
+
+/-- the standard model is satisfiable by a non-trivial rounding (here: exact arithmetic and a
+rounding that shrinks by `2⁻²⁵`) -/
+example : StdRound (fun v => v) (2⁻¹ ^ 24) ∧ StdRound (fun v => v * (1 - 2⁻¹ ^ 25)) (2⁻¹ ^ 24) := by
+  refine ⟨⟨by norm_num, by norm_num, fun v => ?_⟩, ⟨by norm_num, by norm_num, fun v => ?_⟩⟩
+  · simp only [sub_self, abs_zero]; positivity
+  · have : v * (1 - 2⁻¹ ^ 25) - v = -(2⁻¹ ^ 25 * v) := by ring
+    rw [this, abs_neg, abs_mul, abs_of_nonneg (by norm_num : (0 : ℝ) ≤ 2⁻¹ ^ 25)]
+    exact mul_le_mul_of_nonneg_right (by norm_num) (abs_nonneg v)
+
 /-! ## nearest-node lookup -/
 
 section Lookup
@@ -439,7 +515,7 @@ theorem geoGridNodeNumber_spec (lat lon : Nat → ℝ) (latq lonq : ℝ) (N k : 
     simp only [norm_unitVec, mul_one] at hm
     rw [clamp_id _ (abs_le.1 hm).1 (abs_le.1 hm).2, angle]
     simp [nodeVec, norm_unitVec]
-  simp only [geoGridNodeNumber, geoNodeNumber, realTrig, key] at h
+  simp only [geoGridNodeNumber, geoNodeNumber, realTrig, clampMask_eq_clamp, key] at h
   obtain ⟨v, hv, hmin, hfirst⟩ := argminFirst_spec _ k h
   have hk : k < N := by
     by_contra hk
@@ -631,5 +707,426 @@ theorem inAWC_full (lat : Nat → ℝ) (A : Nat → Nat → ℝ) (N j : Nat) (hA
   apply Finset.sum_congr rfl
   intro i hi
   rw [hA i (Finset.mem_range.1 hi), mul_one]
+
+/-! ## the accuracy clause: from an error of the stored cosine to the error of the angle
+
+What the compiled kernel stores in cell `(a, b)` is a float32 value `c'` of the expression
+`cosExpr`; the exact value is the inner product `c = ⟨v_a, v_b⟩ ∈ [-1, 1]`.  The theorems
+below are the analytic half of the property's accuracy clause: **if** `|c' - c| ≤ η`
+**then** the angle returned is within `arccos (1 - η)` of the great-circle distance
+(`< 2⁻¹⁰` rad for `η ≤ 2⁻²¹ - 2⁻³⁹`) — everywhere, also for coincident and antipodal pairs
+and on the diagonal — and within `π / (2 sin m) · η` where both angles lie in
+`[m, π - m]`.  The bound `η` on the float32 evaluation itself is what remains sampled
+(`harness/c12.py` measures it on every run: `cosine_error_observed`). -/
+
+/-- **absolute accuracy**: a stored cosine within `η` of the exact inner product gives an
+angle within `arccos (1 - η)` of the great-circle distance, whatever the pair. -/
+theorem angular_entry_abs_error (lat lon : Nat → ℝ) (N a b : Nat) (ha : a < N) (hb : b < N)
+    (c' η : ℝ) (hc : |c' - inner ℝ (nodeVec lat lon a) (nodeVec lat lon b)| ≤ η) :
+    |Real.arccos (clamp c') - angularDistance realTrig lat lon N a b| ≤ Real.arccos (1 - η) := by
+  have hm := abs_inner_nodeVec_le_one lat lon a b
+  have hcl := clamp_mem c'
+  have hE : angularDistance realTrig lat lon N a b
+      = Real.arccos (inner ℝ (nodeVec lat lon a) (nodeVec lat lon b)) := by
+    rw [angularDistance_eq_angle lat lon N a b ha hb, angle]
+    simp [nodeVec, norm_unitVec]
+  rw [hE]
+  exact arccos_sub_le _ _ η hcl.1 hcl.2 hm.1 hm.2
+    (le_trans (clamp_close c' _ hm.1 hm.2) hc)
+
+/-- … which is below the property's `2⁻¹⁰` rad as soon as `η ≤ 2⁻²¹ - 2⁻³⁹`. -/
+theorem angular_entry_abs_error_bound (lat lon : Nat → ℝ) (N a b : Nat) (ha : a < N) (hb : b < N)
+    (c' η : ℝ) (hc : |c' - inner ℝ (nodeVec lat lon a) (nodeVec lat lon b)| ≤ η)
+    (hη : η ≤ 2⁻¹ ^ 21 - 2⁻¹ ^ 39) :
+    |Real.arccos (clamp c') - angularDistance realTrig lat lon N a b| < 2⁻¹ ^ 10 :=
+  lt_of_le_of_lt (angular_entry_abs_error lat lon N a b ha hb c' η hc) (arccos_one_sub_lt η hη)
+
+/-- **self distance "at most that error"**: on the diagonal the exact cosine is `1`, so a
+stored value within `η` of `1` gives a self-distance in `[0, arccos (1 - η)]`. -/
+theorem angular_self_error (c' η : ℝ) (hc : |c' - 1| ≤ η) :
+    0 ≤ Real.arccos (clamp c') ∧ Real.arccos (clamp c') ≤ Real.arccos (1 - η) := by
+  refine ⟨Real.arccos_nonneg _, ?_⟩
+  have hcl := clamp_mem c'
+  have h := arccos_sub_le (clamp c') 1 η hcl.1 hcl.2 (by norm_num) le_rfl
+    (le_trans (clamp_close c' 1 (by norm_num) le_rfl) hc)
+  rw [Real.arccos_one, sub_zero, abs_of_nonneg (Real.arccos_nonneg _)] at h
+  exact h
+
+/-- **accuracy away from coincident and antipodal pairs**: if the exact angle and the
+computed one both lie in `[m, π - m]`, the error is linear in the cosine error:
+`≤ π / (2 sin m) · η`, i.e. a relative error `≤ π η / (2 m sin m)`. -/
+theorem angular_entry_mid_error (lat lon : Nat → ℝ) (N a b : Nat) (ha : a < N) (hb : b < N)
+    (c' η m : ℝ) (hc : |c' - inner ℝ (nodeVec lat lon a) (nodeVec lat lon b)| ≤ η) (hm : 0 < m)
+    (h1 : m ≤ angularDistance realTrig lat lon N a b)
+    (h2 : angularDistance realTrig lat lon N a b ≤ Real.pi - m)
+    (h3 : m ≤ Real.arccos (clamp c')) (h4 : Real.arccos (clamp c') ≤ Real.pi - m) :
+    |Real.arccos (clamp c') - angularDistance realTrig lat lon N a b|
+      ≤ Real.pi / (2 * Real.sin m) * η := by
+  have hi := abs_inner_nodeVec_le_one lat lon a b
+  have hcl := clamp_mem c'
+  have hE : angularDistance realTrig lat lon N a b
+      = Real.arccos (inner ℝ (nodeVec lat lon a) (nodeVec lat lon b)) := by
+    rw [angularDistance_eq_angle lat lon N a b ha hb, angle]
+    simp [nodeVec, norm_unitVec]
+  rw [hE] at h1 h2 ⊢
+  refine le_trans (arccos_sub_le_mid _ _ m hcl.1 hcl.2 hi.1 hi.2 hm h3 h4 h1 h2) ?_
+  have hs : 0 < Real.sin m :=
+    Real.sin_pos_of_pos_of_lt_pi hm (by linarith [Real.arccos_nonneg (clamp c')])
+  apply mul_le_mul_of_nonneg_left (le_trans (clamp_close c' _ hi.1 hi.2) hc)
+  exact div_nonneg Real.pi_pos.le (by linarith)
+
+/-- **both regimes combined** — the form whose hypotheses the harness measures on every run
+(`cosine_error_observed`): all stored cosines are within `ηall` of the exact ones, those of
+pairs whose exact or computed angle lies outside `[m, π - m]` (near-coincident /
+near-antipodal pairs, the diagonal) even within `ηend`; then every entry is within
+`max (arccos (1 - ηend)) (π / (2 sin m) · ηall)` of the great-circle distance. -/
+theorem angular_entry_error_combined (lat lon : Nat → ℝ) (N a b : Nat) (ha : a < N) (hb : b < N)
+    (c' ηall ηend m bound : ℝ) (hm : 0 < m)
+    (hc : |c' - inner ℝ (nodeVec lat lon a) (nodeVec lat lon b)| ≤ ηall)
+    (hend : ¬ (m ≤ angularDistance realTrig lat lon N a b ∧
+          angularDistance realTrig lat lon N a b ≤ Real.pi - m ∧
+          m ≤ Real.arccos (clamp c') ∧ Real.arccos (clamp c') ≤ Real.pi - m) →
+        |c' - inner ℝ (nodeVec lat lon a) (nodeVec lat lon b)| ≤ ηend)
+    (h1 : Real.arccos (1 - ηend) ≤ bound) (h2 : Real.pi / (2 * Real.sin m) * ηall ≤ bound) :
+    |Real.arccos (clamp c') - angularDistance realTrig lat lon N a b| ≤ bound := by
+  by_cases hmid : m ≤ angularDistance realTrig lat lon N a b ∧
+      angularDistance realTrig lat lon N a b ≤ Real.pi - m ∧
+      m ≤ Real.arccos (clamp c') ∧ Real.arccos (clamp c') ≤ Real.pi - m
+  · exact le_trans (angular_entry_mid_error lat lon N a b ha hb c' ηall m hc hm hmid.1 hmid.2.1
+      hmid.2.2.1 hmid.2.2.2) h2
+  · exact le_trans (angular_entry_abs_error lat lon N a b ha hb c' ηend (hend hmid)) h1
+
+/-- a whole matrix of stored cosines within `η ≤ 2⁻²¹ - 2⁻³⁹` of the exact ones yields
+distances that obey the triangle inequality up to `3 · 2⁻¹⁰` — the slack the oracle uses. -/
+theorem angular_triangle_of_cos_error (lat lon : Nat → ℝ) (N : Nat) (C' : Nat → Nat → ℝ) (η : ℝ)
+    (hη : η ≤ 2⁻¹ ^ 21 - 2⁻¹ ^ 39)
+    (hC : ∀ a < N, ∀ b < N, |C' a b - inner ℝ (nodeVec lat lon a) (nodeVec lat lon b)| ≤ η)
+    (a b c : Nat) (ha : a < N) (hb : b < N) (hc : c < N) :
+    Real.arccos (clamp (C' a c))
+      ≤ Real.arccos (clamp (C' a b)) + Real.arccos (clamp (C' b c)) + 3 * 2⁻¹ ^ 10 :=
+  angularDistance_triangle_approx lat lon N (fun a b => Real.arccos (clamp (C' a b))) _
+    (fun a ha b hb => (angular_entry_abs_error_bound lat lon N a b ha hb _ η (hC a ha b hb) hη).le)
+    a b c ha hb hc
+
+example : |Real.arccos (clamp (1 + 2⁻¹ ^ 22 : ℝ)) - 0| < 2⁻¹ ^ 10 := by
+  have h := angular_self_error (1 + 2⁻¹ ^ 22) (2⁻¹ ^ 22) (by norm_num [abs_of_nonneg])
+  have := arccos_one_sub_lt (2⁻¹ ^ 22) (by norm_num)
+  rw [sub_zero, abs_of_nonneg h.1]
+  linarith [h.2]
+
+/-! ## `GeoGrid.convert_lon_coordinates` -/
+
+/-- longitudes in `[0, 360]` are mapped into `(-180, 180]` … -/
+theorem convertLon1_range (l : ℝ) (h0 : 0 ≤ l) (h1 : l ≤ 360) :
+    -180 < convertLon1 l ∧ convertLon1 l ≤ 180 := by
+  unfold convertLon1
+  split_ifs with h
+  · constructor <;> linarith
+  · constructor <;> linarith
+
+/-- … values already in `[-180, 180]` are left alone (idempotence) … -/
+theorem convertLon1_id (l : ℝ) (h : l ≤ 180) : convertLon1 l = l := by
+  unfold convertLon1; rw [if_neg (not_lt.2 h)]
+
+/-- … and the converted longitude denotes **the same point** of the sphere: -/
+theorem nodeVec_convertLon (lat lon : Nat → ℝ) (i : Nat) :
+    nodeVec lat (fun i => convertLon1 (lon i)) i = nodeVec lat lon i := by
+  simp only [nodeVec, convertLon1]
+  split_ifs with h
+  · have e : (lon i - 360) * Real.pi / 180 = lon i * Real.pi / 180 - 2 * Real.pi := by ring
+    simp only [unitVec, e, Real.cos_sub_two_pi, Real.sin_sub_two_pi]
+  · rfl
+
+/-- hence all great-circle distances are unchanged by the conversion. -/
+theorem angularDistance_convertLon (lat lon : Nat → ℝ) (N a b : Nat) (ha : a < N) (hb : b < N) :
+    angularDistance realTrig lat (fun i => convertLon1 (lon i)) N a b
+      = angularDistance realTrig lat lon N a b := by
+  rw [angularDistance_eq_angle _ _ N a b ha hb, angularDistance_eq_angle _ _ N a b ha hb,
+    nodeVec_convertLon, nodeVec_convertLon]
+
+/-- the loop reads `lon_seq[i]` for `i < N`: it fails exactly when the sequence is shorter
+than the grid, and otherwise returns `N` converted values -/
+theorem convertLon_spec (N : Nat) (lon : List ℝ) :
+    (convertLon N lon = none ↔ lon.length < N) ∧
+      ∀ out, convertLon N lon = some out →
+        out.length = N ∧ ∀ i (_ : i < N) (h : i < lon.length), out[i]? = some (convertLon1 lon[i]) := by
+  unfold convertLon
+  constructor
+  · split_ifs with h <;> simp [h]
+  · intro out h
+    split_ifs at h with hl
+    simp only [Option.some.injEq] at h
+    subst h
+    refine ⟨by simp; omega, ?_⟩
+    intro i hi hil
+    simp [hi, hil]
+
+example : convertLon 3 [10, 350, (190 : ℚ)] = some [10, -10, -170] := by decide +kernel
+example : convertLon 3 [10, (350 : ℚ)] = none := by decide +kernel
+
+/-! ## link distance measures -/
+
+section LinkDistance
+set_option linter.unusedSectionVars false
+variable {α : Type} [Field α] [LinearOrder α] [IsStrictOrderedRing α]
+
+/-- `ndarray.max` returns an element of the row that bounds all others; it fails exactly
+on an empty row -/
+theorem maxRow_spec (l : List α) (m : α) (h : maxRow l = some m) : m ∈ l ∧ ∀ y ∈ l, y ≤ m := by
+  match l, h with
+  | x :: xs, h =>
+    simp only [maxRow, Option.some.injEq] at h
+    subst h
+    exact foldl_max_spec xs x
+
+theorem maxRow_eq_none_iff (l : List α) : maxRow l = none ↔ l = [] := by
+  cases l <;> simp [maxRow]
+
+/-- **`max_link_distance`**: for non-negative distances and a 0/1 adjacency matrix the value
+for node `i` bounds the distance to every neighbour and is attained: it is the distance
+to some neighbour, or `0` (no neighbours / all neighbours at distance 0). -/
+theorem maxLinkDist_spec (D A : Nat → Nat → α) (N i : Nat) (m : α)
+    (hD : ∀ j < N, 0 ≤ D i j) (hA : ∀ j < N, A i j = 0 ∨ A i j = 1)
+    (h : maxLinkDist D A N i = some m) :
+    (∀ j < N, A i j = 1 → D i j ≤ m) ∧ 0 ≤ m ∧
+      (m = 0 ∨ ∃ j < N, A i j = 1 ∧ m = D i j) := by
+  obtain ⟨hmem, hmax⟩ := maxRow_spec _ m h
+  obtain ⟨j, hj, rfl⟩ := List.mem_map.1 hmem
+  have hj' := List.mem_range.1 hj
+  refine ⟨?_, ?_, ?_⟩
+  · intro k hk hAk
+    have := hmax (D i k * A i k) (List.mem_map.2 ⟨k, List.mem_range.2 hk, rfl⟩)
+    rwa [hAk, mul_one] at this
+  · rcases hA j hj' with h0 | h1
+    · rw [h0, mul_zero]
+    · rw [h1, mul_one]; exact hD j hj'
+  · rcases hA j hj' with h0 | h1
+    · left; rw [h0, mul_zero]
+    · right; exact ⟨j, hj', h1, by rw [h1, mul_one]⟩
+
+theorem maxLinkDist_ne_none (D A : Nat → Nat → α) (N i : Nat) (hN : 0 < N) :
+    maxLinkDist D A N i ≠ none := by
+  unfold maxLinkDist
+  rw [Ne, maxRow_eq_none_iff]
+  intro h
+  have := congrArg List.length h
+  simp at this
+  omega
+
+/-- **average link distance** (not geometry corrected): for a 0/1 row of the adjacency
+matrix and `degree = ` its row sum `≠ 0`, the value is the arithmetic mean of the
+distances to the neighbours: `ald · degree = Σ_{j ∈ N(i)} D[i, j]`; in particular it
+lies between any bounds valid for the neighbours' distances. -/
+theorem genALD_mean (D A : Nat → Nat → α) (deg : Nat → α) (N : Nat) (nN : α) (i : Nat)
+    (hA : ∀ j < N, A i j = 0 ∨ A i j = 1)
+    (hdeg : deg i = ∑ j ∈ Finset.range N, A i j) (hne : deg i ≠ 0) :
+    ∃ v, genALD D A deg N nN false i = some v ∧
+      v * deg i = ∑ j ∈ Finset.range N, D i j * A i j ∧
+      ∀ lo hi : α, (∀ j < N, A i j = 1 → lo ≤ D i j ∧ D i j ≤ hi) → lo ≤ v ∧ v ≤ hi := by
+  refine ⟨_, by simp only [genALD, if_neg hne]; rfl, ?_, ?_⟩
+  · rw [div_mul_cancel₀ _ hne]; exact foldl_add_eq_sum _ N
+  · intro lo hi hb
+    have hs : sumTo N (fun j => D i j * A i j) = ∑ j ∈ Finset.range N, D i j * A i j :=
+      foldl_add_eq_sum _ N
+    have hpos : 0 < deg i := by
+      refine lt_of_le_of_ne ?_ (Ne.symm hne)
+      rw [hdeg]
+      apply Finset.sum_nonneg
+      intro j hj
+      rcases hA j (Finset.mem_range.1 hj) with h | h <;> simp [h]
+    rw [hs]
+    constructor
+    · rw [le_div_iff₀ hpos, hdeg, Finset.mul_sum]
+      apply Finset.sum_le_sum
+      intro j hj
+      have hj' := Finset.mem_range.1 hj
+      rcases hA j hj' with h | h
+      · rw [h]; simp
+      · rw [h, mul_one, mul_one]; exact (hb j hj' h).1
+    · rw [div_le_iff₀ hpos, hdeg, Finset.mul_sum]
+      apply Finset.sum_le_sum
+      intro j hj
+      have hj' := Finset.mem_range.1 hj
+      rcases hA j hj' with h | h
+      · rw [h]; simp
+      · rw [h, mul_one, mul_one]; exact (hb j hj' h).2
+
+/-- nodes without links get the value `0` (the `degree != 0` mask) -/
+theorem genALD_isolated (D A : Nat → Nat → α) (deg : Nat → α) (N : Nat) (nN : α) (i : Nat)
+    (h : deg i = 0) : genALD D A deg N nN false i = some 0 := by
+  simp [genALD, h]
+
+/-- `geometry_corrected=True` divides by the node's mean distance to **all** nodes
+(`D.mean(axis=1)`), and has no value when that mean is zero -/
+theorem genALD_corrected (D A : Nat → Nat → α) (deg : Nat → α) (N : Nat) (nN : α) (i : Nat) (v : α)
+    (h : genALD D A deg N nN false i = some v) :
+    genALD D A deg N nN true i =
+      if (∑ j ∈ Finset.range N, D i j) / nN = 0 then none
+      else some (v / ((∑ j ∈ Finset.range N, D i j) / nN)) := by
+  have hs : sumTo N (fun j => D i j) = ∑ j ∈ Finset.range N, D i j := foldl_add_eq_sum _ N
+  simp only [genALD, Bool.false_eq_true, if_false, Option.some.injEq] at h
+  simp only [genALD, if_true, hs, h]
+
+/-- in- and out-variants are the general routine on `(Aᵀ, column sums)` / `(A, row sums)`,
+so the degree passed is the row sum of the matrix passed (hypothesis of `genALD_mean`) -/
+theorem inALD_eq_outALD_transpose (D A : Nat → Nat → α) (N : Nat) (nN : α) (c : Bool) (i : Nat) :
+    inALD D A N nN c i = outALD D (fun a b => A b a) N nN c i := rfl
+
+theorem outALD_mean (D A : Nat → Nat → α) (N : Nat) (nN : α) (i : Nat)
+    (hA : ∀ j < N, A i j = 0 ∨ A i j = 1) (hne : (∑ j ∈ Finset.range N, A i j) ≠ 0) :
+    ∃ v, outALD D A N nN false i = some v ∧
+      v * (∑ j ∈ Finset.range N, A i j) = ∑ j ∈ Finset.range N, D i j * A i j := by
+  have hd : sumTo N (fun j => A i j) = ∑ j ∈ Finset.range N, A i j := foldl_add_eq_sum _ N
+  obtain ⟨v, h1, h2, _⟩ := genALD_mean D A (fun i => sumTo N (fun j => A i j)) N nN i hA hd
+    (by rw [hd]; exact hne)
+  exact ⟨v, h1, by rw [← hd]; exact h2⟩
+
+/-- `undirected_adjacency()` is symmetric, and is the adjacency matrix itself when that is
+symmetric (undirected network) -/
+theorem undirAdj_symm (A : Nat → Nat → α) (i j : Nat) : undirAdj A i j = undirAdj A j i := by
+  unfold undirAdj
+  rcases lt_trichotomy (A i j) (A j i) with h | h | h
+  · rw [if_pos h, if_neg (not_lt.2 h.le)]
+  · rw [h]
+  · rw [if_neg (not_lt.2 h.le), if_pos h]
+
+theorem undirAdj_of_symm (A : Nat → Nat → α) (h : ∀ i j, A i j = A j i) : undirAdj A = A := by
+  funext i j
+  unfold undirAdj
+  rw [if_neg (by rw [h i j]; exact lt_irrefl _)]
+
+/-- for an undirected network `average_link_distance` and `max_link_distance` are the
+out-variants on the adjacency matrix itself (so `outALD_mean` / `maxLinkDist_spec` apply) -/
+theorem avgALD_undirected (D A : Nat → Nat → α) (N : Nat) (nN : α) (c : Bool) (i : Nat)
+    (h : ∀ i j, A i j = A j i) :
+    avgALD false D A N nN c i = outALD D A N nN c i ∧ maxLinkDistNet D A N i = maxLinkDist D A N i := by
+  simp only [avgALD, maxLinkDistNet, undirAdj_of_symm A h, outALD]
+  simp
+
+end LinkDistance
+
+example : maxLinkDist (fun _ j => (j : ℚ)) (fun _ j => if j = 1 then 1 else 0) 3 0 = some 1 := by
+  decide +kernel
+example : outALD (fun _ j => (j : ℚ)) (fun _ j => if j = 0 then 0 else 1) 3 3 false 0
+    = some (3 / 2) := by decide +kernel
+
+/-! ## tie to the source: the definitions regenerated from the working tree
+
+`translate/gen_C12.py` re-reads `numerics.pyx`, `geo_grid.py`, `grid.py` and
+`geo_network.py` on every run and writes `Generated/StructC12.lean`: loop bounds, the
+expression assigned to `expr`, the clamp chains, the index pairs stored, the argument
+wiring of `GeoGrid.angular_distance`, the degree → radian conversion.  The theorems below
+state that these *generated* definitions are the model the theorems above are about.
+Algebraic identities are stated over commutative rings / ordered fields (so a
+semantics-preserving reordering of the source does not break the tie). -/
+
+section SourceTie
+open Pyunicorn.Generated
+
+/-- the symmetric triangular fill as the source's loops and stores spell it -/
+def fillBy {α : Type} (outer : Nat) (inner : Nat → Nat) (stores : Nat → Nat → List (Nat × Nat))
+    (f : Nat → Nat → α) (M : Nat → Nat → α) : Nat → Nat → α :=
+  ((List.range outer).flatMap fun i => (List.range (inner i)).map fun j => (i, j)).foldl
+    (fun M p => (stores p.1 p.2).foldl (fun M q => upd M q.1 q.2 (f p.1 p.2)) M) M
+
+/-- loops and stores of `_calculate_angular_distance` are the model's `fillSym` -/
+theorem src_angular_fill {α : Type} (N : Nat) (f : Nat → Nat → α) (M : Nat → Nat → α) :
+    fillBy (StructC12.angOuter N) StructC12.angInner StructC12.angStores f M = fillSym N f M := rfl
+
+/-- loops and stores of `_calculate_euclidean_distance` are the model's `fillSym` -/
+theorem src_euclid_fill {α : Type} (N : Nat) (f : Nat → Nat → α) (M : Nat → Nat → α) :
+    fillBy (StructC12.eucOuter N) StructC12.eucInner StructC12.eucStores f M = fillSym N f M := rfl
+
+/-- the expression of the angular kernel is `cosExpr` (arguments in the kernel's
+parameter order `cos_lat, sin_lat, cos_lon, sin_lon`) -/
+theorem src_angular_expr {α : Type} [CommRing α] (cl sl cn sn : Nat → α) (i j : Nat) :
+    StructC12.angExpr cl sl cn sn i j = cosExpr sl cl sn cn i j := by
+  unfold StructC12.angExpr cosExpr; ring
+
+/-- the kernel's `if … elif …` is `clamp` -/
+theorem src_angular_clamp {α : Type} [Field α] [LinearOrder α] [IsStrictOrderedRing α] (e : α) :
+    StructC12.angClamp e = clamp e := by
+  have h : (-1 : α) < 1 := by linarith [zero_lt_one (α := α)]
+  unfold StructC12.angClamp clamp
+  by_cases h1 : 1 < e
+  · simp [h1]
+  · by_cases h2 : e < -1 <;> simp [h1, h2]
+
+/-- `GeoGrid.angular_distance` passes `self.cos_lat()` as `cos_lat`, … (no table is
+swapped), and returns `np.arccos` of the matrix the kernel filled; the tables are
+`cos` / `sin` of `lat_sequence()` / `lon_sequence()` converted by `x * π / 180`, and those
+sequences are rows 0 / 1 of the coordinate array -/
+theorem src_angular_wiring :
+    (∀ p ∈ StructC12.angBinding, p.1 = p.2) ∧
+    StructC12.angBinding.map (·.1) = StructC12.angParams.take 4 ∧
+    StructC12.angResultFn = "np.arccos" ∧
+    StructC12.trigTables = [("cos_lat", "np.cos", "lat_sequence"), ("sin_lat", "np.sin", "lat_sequence"),
+      ("cos_lon", "np.cos", "lon_sequence"), ("sin_lon", "np.sin", "lon_sequence")] ∧
+    StructC12.latDim = 0 ∧ StructC12.lonDim = 1 := by decide
+
+theorem src_rad (x : ℝ) : StructC12.rad x Real.pi = realTrig.rad x := rfl
+
+/-- the Euclidean kernel accumulates `sumsq` and takes the power `1/2` -/
+theorem src_euclid_expr {α : Type} [CommRing α] (x : Nat → Nat → α) (d i j : Nat) :
+    (List.range (StructC12.eucDim d)).foldl (fun acc k => acc + StructC12.eucTerm x k i j)
+        StructC12.eucInit = sumsq x d i j ∧ StructC12.eucExponent = 1 / 2 := by
+  refine ⟨?_, rfl⟩
+  have h : (fun (acc : α) k => acc + StructC12.eucTerm x k i j)
+      = fun acc k => acc + (x k i - x k j) * (x k i - x k j) := by
+    funext acc k; unfold StructC12.eucTerm; ring
+  simp only [StructC12.eucDim, StructC12.eucInit, sumsq, h]
+
+/-- `GeoGrid.node_number`: the vectorised expression and its two masked assignments are
+the model's; the query point's tables are `sin` / `cos` of `lat_node` / `lon_node` -/
+theorem src_geoNodeNumber {α : Type} [Field α] [LinearOrder α] [IsStrictOrderedRing α]
+    (cl sl cn sn : Nat → α) (slv clv snv cnv : α) (i : Nat) :
+    StructC12.nnClamp (StructC12.nnExpr cl sl cn sn slv clv snv cnv i)
+      = clampMask (sl i * slv + cl i * clv * (sn i * snv + cn i * cnv)) := by
+  have e : StructC12.nnExpr cl sl cn sn slv clv snv cnv i
+      = sl i * slv + cl i * clv * (sn i * snv + cn i * cnv) := by
+    unfold StructC12.nnExpr; ring
+  rw [e, clampMask_eq_clamp]
+  generalize sl i * slv + cl i * clv * (sn i * snv + cn i * cnv) = v
+  have h : (-1 : α) < 1 := by linarith [zero_lt_one (α := α)]
+  unfold StructC12.nnClamp clamp
+  by_cases h1 : 1 < v
+  · have h2 : ¬ v < -1 := by intro h2; linarith
+    simp [h1, h2]
+  · by_cases h2 : v < -1
+    · have h3 : ¬ ((1 : α) < -1) := not_lt.2 h.le
+      simp [h1, h2, h3]
+    · simp [h1, h2]
+
+theorem src_geoNodeNumber_query :
+    StructC12.nnQueryTables.map (fun t => (t.1, t.2.1, t.2.2.1)) =
+      [("sin_lat_v", "np.sin", "lat_node"), ("cos_lat_v", "np.cos", "lat_node"),
+       ("sin_lon_v", "np.sin", "lon_node"), ("cos_lon_v", "np.cos", "lon_node")] ∧
+    ∀ t ∈ StructC12.nnQueryTables, t.2.2.2 = "((x * pi) / 180)" := by decide
+
+/-- `convert_lon_coordinates`: loop bound `self.N`, body `convertLon1` -/
+theorem src_convertLon (lon : Nat → ℝ) (N i : Nat) :
+    StructC12.convBound N = N ∧ StructC12.convStep lon i = convertLon1 (lon i) := by
+  refine ⟨rfl, ?_⟩
+  unfold StructC12.convStep convertLon1; rfl
+
+/-- `Grid.node_number`: squared differences summed over the coordinates, `np.sqrt`,
+`argmin` -/
+theorem src_gridNodeNumber {α : Type} [CommRing α] (x : Nat → Nat → α) (q : Nat → α) (d i : Nat) :
+    (List.range d).foldl (fun acc k => acc + StructC12.gridSq x q k i) 0 = qsumsq x q d i ∧
+    StructC12.gridPost = "np.sqrt" ∧ StructC12.gridPick = "dist.argmin()" := by
+  refine ⟨?_, by decide, by decide⟩
+  have h : (fun (acc : α) k => acc + StructC12.gridSq x q k i)
+      = fun acc k => acc + (x k i - q k) * (x k i - q k) := by
+    funext acc k; unfold StructC12.gridSq; ring
+  simp only [qsumsq, h]
+
+/-- `set_node_weight_type`: `"surface"` → `cos_lat()`, `"irrigation"` → its square,
+anything else → `None` (unit weights by the `node_weights` setter) -/
+theorem src_weightCases :
+    StructC12.weightCases = [("surface", "self.grid.cos_lat()"),
+      ("irrigation", "np.square(self.grid.cos_lat())")] ∧ StructC12.weightElse = "None" := by
+  decide
+
+end SourceTie
 
 end Pyunicorn.Geo
